@@ -99,7 +99,7 @@ def instances(tier, seed):
     grids = [fam.G_UNI, fam.G_GEO_LOC, fam.G_UNI_LT]
     H = fam.HORIZONS
     n = 0
-    reps = 1 if tier == 'quick' else 3
+    reps = 1 if tier == 'quick' else 6
     for rep in range(reps):
         for method, intg in (('MS', 'rk'), ('SS', 'rk'), ('DC', None), ('MS', 'expl_euler')):
             for hi in (0, 5, 2):
